@@ -3,6 +3,8 @@
 -/
 import SymfcModel.Model.Eig
 import SymfcModel.Gen.Eig
+import SymfcModel.Lemmas.EigBook
+import SymfcModel.Lemmas.LinAlg
 namespace Symfc.C15
 open Symfc
 
@@ -21,5 +23,54 @@ theorem old_rule_keeps_non_unit_values :
 
 /-- C15.c: sub-blocks without a unit eigenvector contribute all their coordinates to the complement (fix of F4) -/
 theorem skipped_sub_blocks_enter_complement : Gen.skippedSubBlockInComplement = true := by decide
+
+/-- C15.c: with the extracted rule (skipped sub-blocks enter the complement) the eigenvector columns and the
+    complement columns found in the sub-block loop always add up to the full block size: no coordinate is lost before
+    the complementary problem is solved. -/
+theorem block_divided_bookkeeping_is_complete (sizes : List Nat) (solved : List Bool) (found : List Nat)
+    (h1 : sizes.length = solved.length) (h2 : solved.length = found.length)
+    (hle : ∀ i (h1 : i < sizes.length) (h2 : i < found.length), found[i] ≤ sizes[i]) :
+    (blockBookkeeping Gen.skippedSubBlockInComplement sizes solved found).1 +
+    (blockBookkeeping Gen.skippedSubBlockInComplement sizes solved found).2 = sizes.sum := by
+  have : Gen.skippedSubBlockInComplement = true := by decide
+  rw [this]; exact blockBookkeeping_skipped_total sizes solved found h1 h2 hle
+
+/-- C15.c, negation for the rule the code had before the fix of F4: as soon as one non-empty sub-block is skipped,
+    coordinates are missing from the complement (witness: sizes [2,1], second sub-block skipped: 2 of 3). -/
+theorem old_bookkeeping_loses_coordinates :
+    blockBookkeeping false [2, 1] [true, false] [0, 0] = (0, 2) ∧ [2, 1].sum = 3 := by decide
+
+/-- C15.d: the rank short-cut `int(round(trace)) == 0` fires only when trace ≤ 1/2 < 1; a matrix 0 ≤ M with a unit
+    eigenvector has trace ≥ 1, so nothing is dropped by it. -/
+theorem rank_zero_shortcut_needs_trace_below_one (t den : Int) (ht : 0 ≤ t) (hden : 0 < den)
+    (h : roundHalfEven t den = 0) : 2 * t ≤ den ∧ t < den :=
+  ⟨roundHalfEven_zero_imp t den ht hden h, roundHalfEven_zero_lt_one t den ht hden h⟩
+
+/-- the sub-block size of the large path is never 0 (clamped to [lo, hi] as extracted) -/
+theorem sub_block_size_positive (p : Nat) :
+    0 < targetSize Gen.eigTargetDiv Gen.eigTargetLo Gen.eigTargetHi p := by
+  have h := targetSize_bounds_gen Gen.eigTargetDiv Gen.eigTargetLo Gen.eigTargetHi p (by decide)
+  have : 0 < Gen.eigTargetLo := by decide
+  omega
+
+section L3
+open Matrix
+variable {K : Type*} [Field K] [LinearOrder K] [IsStrictOrderedRing K]
+variable {n : Type*} [Fintype n]
+
+/-- C15 (L3): for symmetric `A` with `xᵀAx ≤ xᵀx` (eigenvalues ≤ 1), `xᵀAx = xᵀx` already forces `A x = x`:
+    nothing with eigenvalue below 1 can have unit Rayleigh quotient. -/
+theorem unit_rayleigh_quotient_is_unit_eigenvector [DecidableEq n] (A : Matrix n n K) (hA : Aᵀ = A)
+    (hle : ∀ x : n → K, x ⬝ᵥ (A *ᵥ x) ≤ x ⬝ᵥ x) (x : n → K) (hx : x ⬝ᵥ (A *ᵥ x) = x ⬝ᵥ x) : A *ᵥ x = x :=
+  LinAlg.unit_eigvec_of_quadratic A hA hle x hx
+
+/-- C15.c: a unit eigenvector of a principal sub-block (coordinates `S`), padded with zeros, is a unit eigenvector
+    of the whole matrix — the step on which the block-divided solver and the per-block solvers rest. -/
+theorem sub_block_unit_eigenvector_lifts [DecidableEq n] (A : Matrix n n K) (hA : Aᵀ = A)
+    (hle : ∀ x : n → K, x ⬝ᵥ (A *ᵥ x) ≤ x ⬝ᵥ x) (S : Finset n) (x : n → K)
+    (hsupp : ∀ i, i ∉ S → x i = 0) (hS : ∀ i ∈ S, (A *ᵥ x) i = x i) : A *ᵥ x = x :=
+  LinAlg.subblock_unit_eigvec A hA hle S x hsupp hS
+
+end L3
 
 end Symfc.C15
